@@ -509,6 +509,14 @@ pub fn check_property(plan: &Plan) -> i32 {
         return 2;
     }
     let results = std::mem::take(&mut *results.lock().unwrap());
+    if let Ok(path) = std::env::var("VERIF_HASHLOG") {
+        // determinism self-test: per run index, the hash of everything observable
+        let mut out = String::new();
+        for (idx, l) in results.iter() {
+            out.push_str(&format!("{idx} order={:016x} sched={:016x} steps={} events={}\n", l.order_hash, l.sched_hash, l.steps, l.events));
+        }
+        let _ = std::fs::write(path, out);
+    }
     // ---- aggregate
     let mut orders: HashSet<u64> = HashSet::new();
     let mut nontriv: HashSet<u64> = HashSet::new();
